@@ -5,11 +5,15 @@ import (
 	"fmt"
 	"math"
 	"math/big"
+	"strings"
 
 	"github.com/cockroachdb/apd/v2"
 	compact_float "github.com/kstenerud/go-compact-float"
 	"github.com/kstenerud/go-concise-encoding/ce"
+	"github.com/kstenerud/go-concise-encoding/ce/events"
 	"github.com/kstenerud/go-concise-encoding/configuration"
+	"github.com/kstenerud/go-concise-encoding/nullevent"
+	"github.com/kstenerud/go-concise-encoding/rules"
 
 	"verifharness/ev"
 	"verifharness/fw"
@@ -156,5 +160,92 @@ func c07Numbers(c *fw.Ctx) {
 				c07Call(c, fmt.Sprintf("UnmarshalCE(%T)", tmpl), desc+" "+in, func() (interface{}, error) { return ce.UnmarshalCE(bytes.NewReader(doc), tmpl, cfg) })
 			}
 		}
+	}
+}
+
+// C07 family "low-limits": documents with real payload (long strings, media types, identifiers, arrays, deep nesting)
+// decoded under configurations whose resource limits are far below the defaults, rules on and off: a limit must turn
+// into an error, never into a loop or a panic.
+func c07LowLimits(c *fw.Ctx) {
+	r := c.Rng
+	cfg := configuration.New()
+	desc := ""
+	switch r.Intn(4) {
+	case 0:
+		cfg.Rules.MaxArraySizeBytes = []uint64{127, 128, 200, 1024, 4096}[r.Intn(5)]
+		desc = fmt.Sprintf("MaxArraySizeBytes=%d", cfg.Rules.MaxArraySizeBytes)
+	case 1:
+		cfg.Rules.MaxIdentifierLength = []uint64{1, 10, 127, 200}[r.Intn(4)]
+		cfg.Rules.MaxArraySizeBytes = []uint64{127, 200, 1 << 30}[r.Intn(3)]
+		desc = fmt.Sprintf("MaxIdentifierLength=%d MaxArraySizeBytes=%d", cfg.Rules.MaxIdentifierLength, cfg.Rules.MaxArraySizeBytes)
+	case 2:
+		cfg.Rules.MaxDocumentSizeBytes = []uint64{10, 200, 5000}[r.Intn(3)]
+		cfg.Rules.MaxContainerDepth = []uint64{1, 3, 50}[r.Intn(3)]
+		desc = fmt.Sprintf("MaxDocumentSizeBytes=%d MaxContainerDepth=%d", cfg.Rules.MaxDocumentSizeBytes, cfg.Rules.MaxContainerDepth)
+	default:
+		cfg.Rules.MaxObjectCount = []uint64{1, 5, 100}[r.Intn(3)]
+		cfg.Rules.MaxLocalReferenceCount = []uint64{0, 1, 3}[r.Intn(3)]
+		cfg.Rules.MaxArraySizeBytes = 300
+		desc = fmt.Sprintf("MaxObjectCount=%d MaxLocalReferenceCount=%d MaxArraySizeBytes=300", cfg.Rules.MaxObjectCount, cfg.Rules.MaxLocalReferenceCount)
+	}
+	if r.Intn(3) == 0 {
+		cfg.Marshal.EnforceRules = false
+		desc += " rules-off"
+	}
+	n := []int{100, 126, 127, 128, 200, 300, 1000, 5000, 70000}[r.Intn(9)]
+	pay := bytes.Repeat([]byte{'a'}, n)
+	var doc []byte
+	kind := r.Intn(8)
+	switch kind {
+	case 0: // long string
+		doc = append(append([]byte{0x81, 0x00, 0x90}, c08Uleb(uint64(n)<<1)...), pay...)
+	case 1: // media with a long media type
+		doc = append(append([]byte{0x81, 0x00, 0x7f, 0xf3}, c08Uleb(uint64(n))...), pay...)
+		doc = append(doc, 0x02, 0x00)
+	case 2: // marker with a long identifier
+		doc = append(append([]byte{0x81, 0x00, 0x7f, 0xf0}, c08Uleb(uint64(n))...), pay...)
+		doc = append(doc, 0x01)
+	case 3: // record type with a long name
+		doc = append(append([]byte{0x81, 0x00, 0x7f, 0xf1}, c08Uleb(uint64(n))...), pay...)
+		doc = append(doc, 0x9b, 0x7d)
+	case 4: // long byte array in chunks
+		doc = c08Chunked([]byte{0x93}, n, 100, 0xaa)
+	case 5: // long resource id, remote reference
+		doc = append(append([]byte{0x81, 0x00, []byte{0x91, 0x7f}[r.Intn(2)]}, c08Uleb(uint64(n)<<1)...), pay...)
+	case 6: // deep nesting
+		doc = append([]byte{0x81, 0x00}, bytes.Repeat([]byte{0x9a}, n%300)...)
+		doc = append(doc, bytes.Repeat([]byte{0x9b}, n%300)...)
+	default: // CTE text with long tokens
+		doc = []byte("c0 [\"" + string(pay) + "\" &" + string(pay[:min(len(pay), n%100+1)]) + ":1 @\"" + string(pay) + "\"]")
+	}
+	if r.Intn(4) == 0 && len(doc) > 8 {
+		doc = doc[:len(doc)-1-r.Intn(4)]
+		desc += " truncated"
+	}
+	c.Note("C07 low-limits %s kind=%d payload=%d doc=%s", desc, kind, n, short(hexs(doc), 160))
+	c.Inc("inputs")
+	c.Inc("family.low-limits")
+	c.Distinct(fmt.Sprintf("low-limits:%s:%d:%d", desc, kind, n))
+	c.Region("low-limits-" + strings.Fields(desc)[0][:strings.Index(desc, "=")])
+	in := fmt.Sprintf("%s kind=%d payload=%d", desc, kind, n)
+	for _, tmpl := range []interface{}{nil, "", []interface{}(nil), map[string]interface{}(nil)} {
+		tmpl := tmpl
+		c07Call(c, "UnmarshalFromCEDocument(low-limits)", in, func() (interface{}, error) { return ce.UnmarshalFromCEDocument(doc, tmpl, cfg) })
+		c07Call(c, "UnmarshalFromCBEDocument(low-limits)", in, func() (interface{}, error) { return ce.UnmarshalFromCBEDocument(doc, tmpl, cfg) })
+		c07Call(c, "UnmarshalFromCTEDocument(low-limits)", in, func() (interface{}, error) { return ce.UnmarshalFromCTEDocument(doc, tmpl, cfg) })
+	}
+	c07Call(c, "UnmarshalCE(low-limits)", in, func() (interface{}, error) { return ce.UnmarshalCE(bytes.NewReader(doc), nil, cfg) })
+	c07Call(c, "UnmarshalCBE(low-limits)", in, func() (interface{}, error) { return ce.UnmarshalCBE(bytes.NewReader(doc), nil, cfg) })
+	for _, withRules := range []bool{true, false} {
+		withRules := withRules
+		mk := func() events.DataEventReceiver {
+			if withRules {
+				return rules.NewRules(nullevent.NewNullEventReceiver(), cfg)
+			}
+			return nullevent.NewNullEventReceiver()
+		}
+		c07Call(c, fmt.Sprintf("NewCBEDecoder.DecodeDocument(low-limits,rules=%v)", withRules), in, func() (interface{}, error) { return nil, ce.NewCBEDecoder(cfg).DecodeDocument(doc, mk()) })
+		c07Call(c, fmt.Sprintf("NewCEDecoder.Decode(low-limits,rules=%v)", withRules), in, func() (interface{}, error) { return nil, ce.NewCEDecoder(cfg).Decode(bytes.NewReader(doc), mk()) })
+		c07Call(c, fmt.Sprintf("NewCTEDecoder.DecodeDocument(low-limits,rules=%v)", withRules), in, func() (interface{}, error) { return nil, ce.NewCTEDecoder(cfg).DecodeDocument(doc, mk()) })
 	}
 }
